@@ -351,6 +351,15 @@ def LiveReach(prog, start):
   a missing table for the known-findings list, never for a verdict."""
   by = {p['name']: p for p in prog['preds']}
 
+  def Selected(node):
+    """`{a: e1, b: e2}.a` is compiled as e1: the other fields are never
+    translated."""
+    if node.get('k') == 'sub' and node['e'].get('k') == 'rec':
+      for f in node['e']['fields']:
+        if f['f'] == node['f']:
+          return f['e']
+    return None
+
   def Mentions(node, skip, out, in_dead_agg=False):
     if isinstance(node, dict):
       if id(node) in skip:
@@ -361,6 +370,9 @@ def LiveReach(prog, start):
         return
       if node.get('k') in ('atom', 'pcall'):
         out.add(node['p'])
+      if Selected(node) is not None:
+        Mentions(Selected(node), skip, out, in_dead_agg)
+        return
       for v in node.values():
         Mentions(v, skip, out, in_dead_agg)
     elif isinstance(node, list):
@@ -373,6 +385,9 @@ def LiveReach(prog, start):
         return
       if node.get('k') == 'var':
         counts[node['name']] += 1
+      if Selected(node) is not None:
+        Count(Selected(node), skip, counts)
+        return
       for v in node.values():
         Count(v, skip, counts)
     elif isinstance(node, list):
@@ -454,21 +469,34 @@ def ClassifyTraceFailures(cases, verdicts, cls, counters, errors):
           counters['inherited_from_ungrounded_program'] += 1
           continue
         unexplained.append(dict(c, signature=sig))
-      elif clause == 'table_missing':
+        continue
+      if clause in ('table_missing', 'table_unfaithful'):
+        # not written at all (missing, or still what it was before the run)
+        # because the only mentions are in expressions the compiler never
+        # translates?  -> signature of F-C17-unused-aggregate-binding
         live = LiveReach(version['prog'], ev['p'])
+        pre = case['events'][step - 2]['file'] if step > 1 else {'$': []}
         rest = []
         for q in c['on']:
-          sig = {'kind': 'table_missing', 'clause': clause,
-                 'features': feats,
+          t = tab[q]
+          not_written = (t not in ev['file'] or
+                         (t in pre and CanonRows(pre[t]) ==
+                          CanonRows(ev['file'][t])))
+          sig = {'kind': 'table_not_written', 'features': feats,
+                 'clause': 'table_not_written' if not_written else clause,
                  'only_in_unused_aggregate_assignment': q not in live}
           f = cls.Match(sig)
           if f:
             counters['known:' + f['id']] += 1
           else:
             rest.append(q)
-        if rest:
-          unexplained.append(dict(c, on=rest))
-      elif clause in ('rows', 'table_unfaithful'):
+        if not rest:
+          continue
+        c = dict(c, on=rest)
+        if clause == 'table_missing':
+          unexplained.append(c)
+          continue
+      if clause in ('rows', 'table_unfaithful'):
         devs = explained.get((tid, step))
         if devs:
           fs = [cls.Match({'dev': d, 'kind': 'rows_differ'}) for d in devs]
